@@ -26,7 +26,7 @@ MUTATORS = {"append", "extend", "insert", "pop", "remove", "clear", "update", "s
 DYNAMIC = {"setattr", "delattr", "globals", "locals", "vars", "exec", "eval", "compile", "__import__"}
 # decorators known to add no shared state and to leave the decorated body as it is written (anything else - caches, registries,
 # wrappers the analysis cannot see into - fails the obligation)
-OK_DECORATORS = {"property", "staticmethod", "classmethod", "abstractmethod", "overload", "final", "override", "cached_property_is_not_ok"} - {"cached_property_is_not_ok"}
+OK_DECORATORS = {"property", "staticmethod", "classmethod", "abstractmethod", "overload", "final", "override"}
 IMMUTABLE_ANN = {"int", "str", "bytes", "bool", "float", "Optional[int]", "Optional[str]", "Optional[bytes]", "Optional[bool]"}
 RANK = {"fresh": 0, "self": 1, "param": 2, "global": 3, "unknown": 4}
 
